@@ -327,7 +327,15 @@ def run_family(rep, acc, kind, elements, boxes, tag, junk, chunk=64, batch=320,
                           'array': bool(res_by_box[b][i]),
                           'repro': f'{G.array_class(kind).__name__}([{elems[i]!r}])[0].intersects_bounds({tuple(b)!r})'})
             rep._c01_scalar += len(sb)
-            nbuf, srec = U.export_scalar(el, qscale)
+            # OPTIONAL extra: the model of the scalar wrapper on the scalar's own (internal) buffers.
+            # The public observation - scalar answer = array answer for the same element and box, the
+            # array answer being checked against the model - is made above; when the internal
+            # attribute / layout is not there this extra is skipped and counted, never an alarm.
+            try:
+                nbuf, srec = U.export_scalar(el, qscale)
+            except Exception as e:
+                rep.count(f'internal-unavailable:scalar-listarray:{type(e).__name__}')
+                continue
             res = None if any(isinstance(g, tuple) for g in got) else C.Some(U.pack(got))
             acc.add(f'run_scalar_packed {SCALAR_FN[kind]}', 'nat * listarr * list box', 'option Z',
                     (nbuf, srec, U.boxes_raw(sb)), res,
@@ -353,7 +361,11 @@ def scalar_point(rep, acc, arr, i, elems, blist, res_by_box, scalar_boxes, meta,
                   'array': bool(res_by_box[b][i]),
                   'repro': f'PointArray([{elems[i]!r}])[0].intersects_bounds({tuple(b)!r})'})
     rep._c01_scalar += len(sb)
-    fv = el.flat_values
+    try:
+        fv = [float(v) for v in el.flat_values]
+    except Exception as e:      # internal attribute: fall back to the enumerated coordinates
+        rep.count(f'internal-unavailable:point-flat_values:{type(e).__name__}')
+        fv = [float(v) for v in elems[i]]
     res = None if any(isinstance(g, tuple) for g in got) else C.Some(U.pack(got))
     acc.add('run_point_scalar_packed', '(num * num) * list box', 'option Z',
             ((C.num(float(fv[0]) * qscale), C.num(float(fv[1]) * qscale)), U.boxes_raw(sb)), res,
@@ -666,8 +678,10 @@ def finish(rep, acc, tier, t0):
     rep.extra['impl_seconds'] = round(time.time() - t0, 1)
     t0 = time.time()
     rep.extra['coq_cases'] = acc.ncases
-    for fn, case, result, meta in acc.collect()[:3 * MAXV]:
-        explain(rep, fn, case, result, meta)
+    bad = acc.collect()
+    for item in [x for x in bad if x[3].get('form') == 'scalar'] + \
+            [x for x in bad if x[3].get('form') != 'scalar'][:3 * MAXV]:
+        explain(rep, *item)
     rep.extra['coq_seconds'] = round(time.time() - t0, 1)
     rep.extra['element_box_pairs'] = rep._c01_pairs
     rep.extra['scalar_calls'] = rep._c01_scalar
@@ -883,10 +897,14 @@ def parse_pairs(text):
 def explain(rep, fn, case, result, meta):
     kind = meta['kind']
     if meta.get('form') == 'scalar':
-        model = C.coq_eval(IMPORTS, f'{fn} {C.coq(case)}')
-        viol(rep, f'model-differs:{kind}:scalar',
-             f'{kind} scalar intersects_bounds differs from the proven model',
-             {**meta, 'impl_packed': result, 'model': model, 'buffers': case[:2]})
+        # the scalar answers were compared with the array form directly (a difference there is the
+        # violation 'forms-differ:<kind>:scalar'); a difference between the scalar wrapper's MODEL on
+        # the scalar's internal buffers and the library only says that the internal buffer layout is
+        # no longer the one Model/Intersect.v transcribes: counted, reported in the evidence, no alarm
+        rep.count(f'internal-unavailable:scalar-buffer-layout:{kind}')
+        rep.extra.setdefault('scalar_model_differences', []).append(
+            {'kind': kind, 'element': meta.get('element'), 'boxes': meta.get('boxes', [])[:3]})
+        rep.extra['scalar_model_differences'] = rep.extra['scalar_model_differences'][:10]
         return
     text = C.coq_eval(IMPORTS, f'{fn} {C.coq(case)}', timeout=900)
     boxes = meta['boxes']
@@ -938,15 +956,24 @@ def replay(rep, rp):
             a = arr.intersects_bounds(unq(b))[0]
             print('box', unq(b), 'scalar:', g, 'array:', bool(a))
             ok = ok and (not isinstance(g, tuple)) and g == bool(a)
+        # the array form of the one-element array against the model (public buffers)
+        r1 = [arr.intersects_bounds(unq(b)) for b in boxes]
+        case = (export(kind, arr, q), U.boxes_raw(boxes))
+        bad = C.coq_mismatches(IMPORTS, f'run_array1_packed {MODEL_FN[kind]}', arr1_ty(kind),
+                               'list (option Z)', [case], [[C.Some(U.pack_np(r)) for r in r1]])
+        print('array form of the one-element array:', 'model agrees' if not bad else 'model differs')
+        ok = ok and not bad
         if kind != 'point':
-            nbuf, srec = U.export_scalar(el, q)
-            got = [impl_scalar(el, unq(b)) for b in boxes]
-            res = None if any(isinstance(g, tuple) for g in got) else C.Some(U.pack(got))
-            fn = f'run_scalar_packed {SCALAR_FN[kind]}'
-            bad = C.coq_mismatches(IMPORTS, fn, 'nat * listarr * list box', 'option Z',
-                                   [(nbuf, srec, U.boxes_raw(boxes))], [res])
-            print('model agrees' if not bad else 'model differs')
-            ok = ok and not bad
+            try:        # optional extra on the scalar's internal buffers: informative only
+                nbuf, srec = U.export_scalar(el, q)
+                got = [impl_scalar(el, unq(b)) for b in boxes]
+                res = None if any(isinstance(g, tuple) for g in got) else C.Some(U.pack(got))
+                fn = f'run_scalar_packed {SCALAR_FN[kind]}'
+                bad = C.coq_mismatches(IMPORTS, fn, 'nat * listarr * list box', 'option Z',
+                                       [(nbuf, srec, U.boxes_raw(boxes))], [res])
+                print('scalar wrapper model on its own buffers:', 'agrees' if not bad else 'differs (internal layout)')
+            except Exception as e:
+                print('scalar internal buffers not available:', type(e).__name__)
         return ok
     els, st, deriv = rp['elements'], rp['subtype'], [tuple(d) for d in rp.get('derivation', [])]
     arr = U.build(kind, els, st, deriv)
